@@ -178,7 +178,7 @@ class SiteResolver:
     table = {}
 
 
-def make_resolver_class(hosts, net):
+def make_resolver_class(hosts, net, any_host=False):
     from wpull.network.dns import Resolver, ResolveResult, AddressInfo
     from wpull.errors import DNSNotFound
     names = {}
@@ -189,6 +189,11 @@ def make_resolver_class(hosts, net):
     class FakeResolver(Resolver):
         @asyncio.coroutine
         def resolve(self, host):
+            if any_host and host not in names and not host.replace('.', '').isdigit():
+                # site['any_host']: every name the client asks for exists (whatever it
+                # looks like), so that what is then sent to it can be judged
+                names[host] = '10.0.1.%d' % (len(names) + 1)
+                net.ip_to_name[names[host]] = host
             if host in names:
                 return ResolveResult([AddressInfo(names[host], socket.AF_INET, None, None)])
             if host.replace('.', '').isdigit():
@@ -247,7 +252,7 @@ class AppRun:
             args = AppArgumentParser().parse_args(argv)
             builder = Builder(args, unit_test=True)
             builder.factory.class_map['Resolver'] = make_resolver_class(
-                self.site['hosts'], net)
+                self.site['hosts'], net, any_host=bool(self.site.get('any_host')))
             _patch_conn_names(net)
             _patch_host_pool()
             app = builder.build()
